@@ -157,7 +157,7 @@ class Path:
 
 
 class _State:
-    __slots__ = ("env", "events", "counters", "trys", "loops", "under", "closures", "globals_", "excstack", "depth")
+    __slots__ = ("env", "events", "counters", "trys", "loops", "under", "closures", "globals_", "excstack", "depth", "heap")
 
     def __init__(self):
         self.env = {}
@@ -170,6 +170,7 @@ class _State:
         self.globals_ = set()
         self.excstack = ()
         self.depth = 0
+        self.heap = {}
 
     def fork(self):
         s = _State()
@@ -181,6 +182,7 @@ class _State:
         s.globals_ = set(self.globals_)
         s.excstack = self.excstack
         s.depth = self.depth
+        s.heap = dict(self.heap)
         return s
 
     def tick(self, key):
@@ -402,6 +404,8 @@ class Summariser:
                         self.assign(t, ("unpack", v, i), st, node)
         elif isinstance(target, ast.Attribute):
             b = self.expr(target.value, st)
+            if not self.is_ctx(b):
+                st.heap[(b, target.attr)] = v
             if self.is_ctx(b):
                 self.emit(st, "CTXSET", {"ctx": b, "key": N.const(target.attr), "value": v}, node)
             elif self.roots_in_self(b):
@@ -484,6 +488,18 @@ class Summariser:
                     names.add(x.id)
         return names
 
+    def _havoc_heap(self, body, st, lid):
+        """Attributes stored inside a loop body are loop-carried."""
+        for n in body:
+            for x in ast.walk(n):
+                if isinstance(x, ast.Attribute) and isinstance(x.ctx, ast.Store):
+                    try:
+                        b = self.expr(x.value, st.fork())
+                    except AnalysisError:
+                        continue
+                    prior = st.heap.get((b, x.attr), ("attr", b, x.attr))
+                    st.heap[(b, x.attr)] = ("lv", "%s.%s" % (N.show(b), x.attr), lid, prior)
+
     def s_For(self, node, st):
         it = self.expr(node.iter, st)
         lid = st.tick("loop")
@@ -500,6 +516,7 @@ class Summariser:
                 b.env[nm] = ("lv", nm, lid, b.env[nm])
             else:
                 b.env[nm] = ("lv", nm, lid, None)
+        self._havoc_heap(node.body, b, lid)
         self.bind_iter(node.target, it, lid, b, node)
         b.loops = b.loops + (lid,)
         self.emit(b, "ITER", {"lid": lid}, node)
@@ -546,6 +563,7 @@ class Summariser:
         b = st
         for nm in self._loop_targets(node.body):
             b.env[nm] = ("lv", nm, lid, b.env.get(nm))
+        self._havoc_heap(node.body, b, lid)
         b.loops = b.loops + (lid,)
         self.emit(b, "ITER", {"lid": lid}, node)
         c = self.expr(node.test, b)
@@ -717,6 +735,8 @@ class Summariser:
 
     def e_Attribute(self, node, st):
         b = self.expr(node.value, st)
+        if (b, node.attr) in st.heap:
+            return st.heap[(b, node.attr)]
         return ("attr", b, node.attr)
 
     def e_Subscript(self, node, st):
